@@ -104,3 +104,27 @@ class Canon:
   @property
   def fq(self):
     return self.fi.fq
+
+
+class NestedView:
+  """A nested function of a canonicalised function (node taken from the copy)."""
+
+  def __init__(self, outer, name):
+    self.node = next((n for n in ast.walk(outer.node) if isinstance(n, ast.FunctionDef) and n.name == name and n is not outer.node), None)
+    self.module = outer.module
+    self.qualname = outer.qualname + '.<locals>.' + name
+    self.name = name
+    self.nested = {}
+
+  def params(self):
+    a = self.node.args
+    return [x.arg for x in a.posonlyargs + a.args]
+
+  @property
+  def fq(self):
+    return self.module.name + ':' + self.qualname
+
+
+def nested(outer, name):
+  v = NestedView(outer, name)
+  return v if v.node is not None else None
